@@ -257,7 +257,7 @@ def get_facts(repo=REPO, direct_ref=None):
 LOCK_SH = fcntl.LOCK_SH
 
 
-def prune_cache(keep=600):
+def prune_cache(keep=200):
     d = os.path.join(BUILD, "facts")
     if not os.path.isdir(d):
         return
